@@ -328,7 +328,7 @@ main(int argc, char **argv)
 					 NULL, NULL, NULL);               /* we don't want bp_ct, srfpos_ct nor erfpos_ct */
       if      (status == eslEFORMAT) esl_fatal("Alignment file parse error:\n%s\n", afp2->errbuf);
       else if (status == eslEINVAL)  esl_fatal("Alignment file parse error:\n%s\n", afp2->errbuf);
-      else if (status != eslOK)      esl_fatal("Alignment file read failed with error code %d\n%s", status, afp);      
+      else if (status != eslOK)      esl_fatal("Alignment file read failed with error code %d\n%s", status, afp2->errbuf);      
 
       msa->alen = orig_alen; /* for convenience, but be careful, the msa doesn't actually have any aseq or ax */
     }
@@ -543,7 +543,7 @@ main(int argc, char **argv)
     status = esl_msafile2_OpenDigital(abc, alifile, NULL, &afp2); /* this should work b/c it did on the first pass */
     if      (status == eslENOTFOUND) esl_fatal("Second pass: alignment file %s doesn't exist or is not readable\n", alifile);
     else if (status == eslEFORMAT)   esl_fatal("Second pass: couldn't determine format of alignment %s\n", alifile);
-    else if (status != eslOK)        esl_fatal("Second pass: alignment file open failed with error %d\n");
+    else if (status != eslOK)        esl_fatal("Second pass: alignment file open failed with error %d\n", status);
     status = esl_msafile2_RegurgitatePfam(afp2, ofp, 
 					  -1, -1, -1, -1, /* max width of seq names, gf,gc,gr tags unknown, we'll use margin length from file */
 					  TRUE,           /* regurgitate stockholm header ? */
